@@ -73,13 +73,13 @@ const (
 	//   0123456789abcdef0123456789abcdef
 	valueMode = "" +
 		".........ak..a.................." + // 0x00
-		"a.Q#tttq()tt,tttttttttttttt;ttt." + // 0x20
+		"a.Q#tttq()tt,tttttttttttttt;tttt" + // 0x20
 		"@tttttttttttttttttttttttttt...tt" + // 0x40
 		"Btttttttttttttttttttttttttt.P.t." + // 0x60
-		"................................" + // 0x80
-		"................................" + // 0xa0
-		"................................" + // 0xc0
-		"................................v" //  0xe0
+		"tttttttttttttttttttttttttttttttt" + // 0x80
+		"tttttttttttttttttttttttttttttttt" + // 0xa0
+		"tttttttttttttttttttttttttttttttt" + // 0xc0
+		"ttttttttttttttttttttttttttttttttv" //  0xe0
 
 	//   0123456789abcdef0123456789abcdef
 	commentMode = "" +
@@ -95,13 +95,13 @@ const (
 	//   0123456789abcdef0123456789abcdef
 	tokenMode = "" +
 		".........TT..T.................." + // 0x00
-		"T...aa..TTaa.aaaaaaaaaaaaaa.aaa." + // 0x20
+		"T...aa..TTaa.aaaaaaaaaaaaaa.aaaa" + // 0x20
 		"aaaaaaaaaaaaaaaaaaaaaaaaaaa...aa" + // 0x40
 		".aaaaaaaaaaaaaaaaaaaaaaaaaa...a." + // 0x60
-		"................................" + // 0x80
-		"................................" + // 0xa0
-		"................................" + // 0xc0
-		"................................t" //  0xe0
+		"aaaaaaaaaaaaaaaaaaaaaaaaaaaaaaaa" + // 0x80
+		"aaaaaaaaaaaaaaaaaaaaaaaaaaaaaaaa" + // 0xa0
+		"aaaaaaaaaaaaaaaaaaaaaaaaaaaaaaaa" + // 0xc0
+		"aaaaaaaaaaaaaaaaaaaaaaaaaaaaaaaat" //  0xe0
 
 	//   0123456789abcdef0123456789abcdef
 	stringMode = "" +
